@@ -23,7 +23,7 @@ RULE = ('Cases: (P, tau) with P substitution-free and I = P[tau] computed by O1 
 ASSUMPTIONS = ['completeness is only demanded for substitution-free patterns, as the property states']
 FLOORS = {'quick': {'match_single_success': 1000, 'match_single_failure': 1000, 'empty_substitution_success': 200, 'seeded_agree': 300, 'seeded_conflict': 300,
                     'match_list': 2000, 'match_list_all_ground': 200, 'match_list_empty': 10, 'match_list_identity_equation': 200, 'notation_roundtrips': 3000, 'assert_matches_calls': 3000,
-                    'notation_arity0': 50, 'nary_deconstruct': 200, 'nary_deconstruct_any_notation': 1000, 'nary_deconstruct_notation_in_head_position': 200, 'instances_spelled_through_substitution_headed_notation': 200}}
+                    'notation_arity0': 50, 'nary_deconstruct': 200, 'same_label_sibling_notation_asked': 500, 'nary_deconstruct_any_notation': 1000, 'nary_deconstruct_notation_in_head_position': 200, 'instances_spelled_through_substitution_headed_notation': 200}}
 FLOORS['thorough'] = dict(FLOORS['quick'])
 
 
@@ -255,6 +255,23 @@ def shard(ctx):
             except AssertionError as ex:
                 ctx.violation('assert_matches_raises_on_own_application' + (':arity0' if N_.arity == 0 else ''), f'{N_.label}.assert_matches raised on an application of {N_.label}',
                               W(notation=N_.label, arity=N_.arity, pattern=spelled, error=str(ex)[:200]))
+        # another notation object carrying the SAME label and arity (generated families: sorted-exists / kore-exists over another
+        # variable) asked about this very application: None, or arguments that rebuild it
+        sibs = [N2 for _k2, N2, _f2, _d2, _s2 in items if N2 is not N_ and N2.label == N_.label and N2.arity == N_.arity]
+        if sibs:
+            N2 = rng.choice(sibs)
+            ctx.count('same_label_sibling_notation_asked')
+            try:
+                got2 = N2.matches(app)
+                if got2 is not None and tb.norm_py(tb.of_repo(N2(*got2))) != tb.norm_py(app_e):
+                    ctx.violation('notation_matches_unsound:same_label_sibling', f'{N2.label}.matches (another notation with the same label) succeeded on an application of its sibling but does not rebuild it',
+                                  W(notation=N_.label, pattern=app, returned=[str(g) for g in got2]))
+                again = N_.matches(app)
+                if again is None or tb.norm_py(tb.of_repo(N_(*again))) != tb.norm_py(app_e):
+                    ctx.violation('notation_matches_none_on_own_application:after_sibling', f'{N_.label}.matches no longer deconstructs its own application after a same-label sibling was asked',
+                                  W(notation=N_.label, pattern=app))
+            except Exception as ex:
+                ctx.violation('notation_matches_raises', f'{N2.label}.matches raised {type(ex).__name__}', W(notation=N2.label, pattern=app, error=repr(ex)))
         # something that is not an application: None or sound
         other_e = rp.rand_term(rng, 2, meta=False, notation=0.3)
         got = N_.matches(tb.to_repo(other_e, P))
